@@ -179,18 +179,20 @@ func c15Run(c c15Case) (out Outcome) {
 		if !bytes.Equal(plain, payload) {
 			return viol("client-stream-wrong-data", "independent reader decodes the client's stream to different bytes (payload %d, got %d)", len(payload), len(plain))
 		}
-		if st.MaxChunkPlain > int(codec.ChunkLen()) {
-			return viol("chunk-too-large", "client wrote a chunk of %d plain bytes, codec chunk length is %d", st.MaxChunkPlain, codec.ChunkLen())
+		// (the bound is Hadoop's, derived from the 256 KiB buffers of its SnappyDecompressor - not whatever the
+		// codec under test believes its chunk length to be)
+		if st.MaxChunkPlain > wire.SnappyChunk {
+			return viol("chunk-too-large", "client wrote a chunk of %d plain bytes, Hadoop's snappy block stream takes at most %d", st.MaxChunkPlain, wire.SnappyChunk)
 		}
 		if len(payload) > 0 && st.Blocks != 1 {
 			return viol("block-structure", "client wrote %d blocks for one payload", st.Blocks)
 		}
-		want := (len(payload) + int(codec.ChunkLen()) - 1) / int(codec.ChunkLen())
+		want := (len(payload) + wire.SnappyChunk - 1) / wire.SnappyChunk
 		if st.Chunks != want {
 			return viol("chunk-structure", "client wrote %d chunks for %d bytes, expected %d full-size chunks", st.Chunks, len(payload), want)
 		}
 	}
-	if len(payload) > int(codec.ChunkLen()) {
+	if len(payload) > wire.SnappyChunk {
 		out.NonTrivial = true
 		out.Labels = append(out.Labels, "multi_chunk")
 	}
